@@ -202,11 +202,18 @@ TProbe ==
        /\ Explain(ev.qual = 1 => ev.same = 1, <<l, ev.e, "same", 1>>)
        /\ UNCHANGED <<par, memo, nw, cal>>
 
+(* a solve that used the parameter as a standard in between (it moves the  *)
+(* remembered segment): changes nothing the queries may depend on          *)
+TStir ==
+    /\ TraceLog[l].e = "Stir"
+    /\ TraceLog[l].h \in DOMAIN par
+    /\ UNCHANGED <<par, memo, nw, cal>>
+
 TNext ==
     /\ l <= Len(TraceLog)
     /\ l' = l + 1
     /\ (TReset \/ TMakeVec \/ TGetVal \/ TNewAlloc \/ TSetF \/ TAddVec
-          \/ TSetMErr \/ TCalMake \/ TApply \/ TProbe)
+          \/ TSetMErr \/ TCalMake \/ TApply \/ TProbe \/ TStir)
 
 TraceSpec == TInit /\ [][TNext]_tvars
 =============================================================================
